@@ -395,6 +395,29 @@ func runCase(rep *core.Report, c tcase, l sim.Layout, seed int64) {
 		if c.Result != "ok" {
 			rep.Nonconf("%s: model predicts %s, real import succeeded", c.key(), c.Result)
 		}
+		// ---- the import stays what a later recovery / restart sees: nothing of the replaced database
+		// (a pending journal, WAL frames) may come back ----
+		rep.Eval(2)
+		var rerr error
+		if pn := core.Try(func() { rerr = n1.Store.Recover(context.Background()) }); pn != nil || rerr != nil {
+			detail["recover_error"], detail["recover_panic"] = fmt.Sprint(rerr), fmt.Sprint(pn)
+			rep.Violate("C16.import-survives-recovery", "recover-fails/"+shape, detail, map[string]any{"case": c})
+			return
+		}
+		var buf2 bytes.Buffer
+		if _, eerr := db.Export(context.Background(), &buf2); eerr != nil || !bytes.Equal(mask(buf2.Bytes()), mask(input)) {
+			detail["export_after_recover_error"] = fmt.Sprint(eerr)
+			detail["export_len"], detail["input_len"] = buf2.Len(), len(input)
+			rep.Violate("C16.import-survives-recovery", "export-differs-after-recover/"+shape, detail, map[string]any{"case": c})
+			return
+		}
+		if re, rerr := reopened(n1.Dir, inL.PageSize, inL.LockPgno()); rerr != nil {
+			detail["restart_error"] = rerr.Error()
+			rep.Violate("C16.import-survives-recovery", "restart-fails-after-import/"+shape, detail, map[string]any{"case": c})
+		} else if re.Image != after.Image || re.Pos != after.Pos {
+			detail["after_restart"] = re
+			rep.Violate("C16.import-survives-recovery", "restart-differs-after-import/"+shape, detail, map[string]any{"case": c})
+		}
 		return
 	}
 	// ---- failure: nothing changed, node not stopped, restart possible ----
